@@ -388,24 +388,24 @@ use std::{ptr, slice};
 /// sleep or yield to perturb thread interleavings. With the feature disabled no code is generated.
 #[cfg(feature = "verif_hooks")]
 pub mod verif_hooks {
-    use std::sync::atomic::{AtomicUsize, Ordering};
+    use std::sync::atomic::{AtomicPtr, Ordering};
 
     /// Callback type: (point name, first datum, second datum)
     pub type Hook = fn(point: &'static str, a: u64, b: u64);
 
-    static HOOK: AtomicUsize = AtomicUsize::new(0);
+    static HOOK: AtomicPtr<()> = AtomicPtr::new(std::ptr::null_mut());
 
     /// Install (Some) or remove (None) the process-wide hook.
     pub fn set_hook(hook: Option<Hook>) {
-        HOOK.store(hook.map(|h| h as usize).unwrap_or(0), Ordering::SeqCst);
+        HOOK.store(hook.map(|h| h as *mut ()).unwrap_or(std::ptr::null_mut()), Ordering::SeqCst);
     }
 
     #[inline]
     pub(crate) fn fire(point: &'static str, a: u64, b: u64) {
         let raw = HOOK.load(Ordering::SeqCst);
-        if raw != 0 {
-            // SAFETY: only values stored by `set_hook` (valid `Hook` fn pointers) are non-zero.
-            let hook: Hook = unsafe { std::mem::transmute::<usize, Hook>(raw) };
+        if !raw.is_null() {
+            // SAFETY: only values stored by `set_hook` (valid `Hook` fn pointers) are non-null.
+            let hook: Hook = unsafe { std::mem::transmute::<*mut (), Hook>(raw) };
             hook(point, a, b);
         }
     }
